@@ -69,7 +69,7 @@ m = {"version": 1, "setup_cmd": "./setup.sh",
      "engines": [{"name": "gsx", "path": "/verif/gsx", "serves_properties": props,
                   "kind_free_text": "go/ssa -> SMT (QF_UFBV) guarded symbolic executor with symbolic schedules; z3 5.1 (z3-new) back end, native replay of every counterexample"}],
      "checks": [], "not_applicable": [],
-     "notes": "fix: commits in /repo: GetAndDelete expired (C01), Compute(delete) zero value (C11), DeleteExpired re-check under lock (C02/C06), default hasher for interface-typed keys (C10); see known_findings.json"}
+     "notes": "fix: commits in /repo: GetAndDelete expired (C01), Compute(delete) zero value (C11), DeleteExpired re-check under lock (C02/C06), default hasher for interface-typed keys (C10), Clear dropped when it loses the resize CAS (C03/C04); see known_findings.json"}
 for p in props:
     if p in claimed_other:
         text, bounds, tech = claimed_other[p]
